@@ -38,16 +38,19 @@ def getStates (j : Json) : Except String (Int ⊕ List Int) :=
   | .arr _ => do let l ← getList getInt j; pure (.inr l)
   | v => do let i ← getInt v; pure (.inl i)
 
-/-- a 4-D nested list of naturals as a `JC` -/
-def getJC (j : Json) (nA nB : Nat) : Except String JC := do
-  let l ← getList (getList (getList (getList getNat))) j
+/-- a 4-D nested list of naturals as a `JC` (array-backed: O(1) cell lookups) -/
+def jcOfLists (l : List (List (List (List Nat)))) (nA nB : Int) : JC :=
   let arr := (l.map fun r => (r.map fun t => (t.map List.toArray).toArray).toArray).toArray
   let Fb := match l with
     | [] => 0
     | r :: _ => r.length
-  pure { Fa := l.length, Fb := Fb, nA := nA, nB := nB,
-         cnt := fun x y i j => if i < 0 ∨ j < 0 then 0 else
-           ((((arr.getD x #[]).getD y #[]).getD i.toNat #[]).getD j.toNat 0) }
+  { Fa := l.length, Fb := Fb, nA := nA, nB := nB,
+    cnt := fun x y i j => if i < 0 ∨ j < 0 then 0 else
+      ((((arr.getD x #[]).getD y #[]).getD i.toNat #[]).getD j.toNat 0) }
+
+def getJC (j : Json) (nA nB : Nat) : Except String JC := do
+  let l ← getList (getList (getList (getList getNat))) j
+  pure (jcOfLists l nA nB)
 
 def jcResp (r : Except Err JC) : Json :=
   match r with
@@ -100,9 +103,14 @@ def handle (op : String) (req : Json) : Except String Json := do
     let ny ← getInt (← field req "n_y")
     match miMatrixCounts trajs nx ny with
     | .error e => pure (errJson (errStr e))
-    | .ok jc => pure (okJson (Json.mkObj [
-        ("jc", listJson (listJson (listJson (listJson natJson))) jc.toLists),
-        ("terms", listJson (listJson (listJson termJson)) (mutualInformationTerms jc))]))
+    | .ok jc =>
+      -- materialise the accumulated table once (the model's table is a closure over the schedule;
+      -- `miCell` re-reads the whole table for every cell)
+      let lists := jc.toLists
+      let jc' := jcOfLists lists jc.nA jc.nB
+      pure (okJson (Json.mkObj [
+        ("jc", listJson (listJson (listJson (listJson natJson))) lists),
+        ("terms", listJson (listJson (listJson termJson)) (mutualInformationTerms jc'))]))
   | "entropy" =>
     let p ← getList getRat (← field req "p")
     let nz ← getBool (← field req "normalize")
